@@ -15,25 +15,10 @@ Record ring := mkRing {
 (* make([]any, size) *)
 Fixpoint nils (fuel : list unit) : list (option item) :=
   match fuel with [] => [] | _ :: t => None :: nils t end.
-Fixpoint nrepeat {A} (x : A) (n : positive) : list A :=
-  match n with
-  | xH => [x]
-  | xO p => nrepeat x p ++ nrepeat x p
-  | xI p => x :: nrepeat x p ++ nrepeat x p
-  end.
-Definition nrep {A} (x : A) (n : N) : list A :=
-  match n with N0 => [] | Npos p => nrepeat x p end.
-
 (* New(size): refuses sizes that are not a power of two ((size & (size-1)) != 0) *)
 Definition pow2_ok (size : N) : bool := N.land size (size - 1) =? 0.
 Definition rnew (size : N) : option ring :=
   if pow2_ok size then Some (mkRing size (nrep None size) 0 0 false) else None.
-
-Fixpoint nset {A} (i : N) (v : A) (l : list A) : list A :=
-  match l with
-  | [] => []
-  | x :: t => if i =? 0 then v :: t else x :: nset (N.pred i) v t
-  end.
 
 Inductive pushres := PushOk (r : ring) | PushFull | PushPanic.
 
